@@ -34,6 +34,7 @@ class Lib(object):
     def __init__(self, spec):
         self.spec = spec
         self.model_classes = {"BytesIO": "BytesIO", "Lock": "Lock", "Condition": "Condition", "socket": "socket", "count": "count",
+                              "File": "File",
                               "pipefile": "pipefile"}
         self.used = set()
         self.views = set()
@@ -1459,6 +1460,15 @@ class Lib(object):
             self.used.add("threading.%s as a context manager: sequential no-op (A-SEQ)" % cm.cls)
             for r in engine.exec_block(st, node.body):
                 yield r
+            return
+        if isinstance(cm, Obj) and cm.cls == "File" and (optvars is None or isinstance(optvars, ast.Name)):
+            # a file object as a context manager: bound to the name, closed on EVERY exit of the block (normal, exception)
+            self.used.add("file object as a context manager: __enter__ returns the file, __exit__ closes it on every exit")
+            if optvars is not None:
+                st.env[optvars.id] = cm
+            for st1, out in engine.exec_block(st, node.body):
+                st1.heap[(cm.oid, "closed")] = True
+                yield st1, out
             return
         raise Unsupported("with %r" % (cm,))
 
